@@ -1,4 +1,5 @@
 import Mochi.Model.Broker
+import Mochi.Lemmas.BrokerIndexSync
 /-!
 # C15 — Expired or ended sessions leave nothing behind
 
@@ -40,5 +41,171 @@ theorem C15_nothing_left_inflight (s : Server) (i : Nat) : (getObj (clearInfligh
 example : sessionDue {} { stopped := true, ver := 5, fsei := true, sei := 10 } (NOW + 11) = true := by decide
 example : sessionDue {} { stopped := true, ver := 5, fsei := true, sei := 10 } (NOW + 10) = false := by decide
 example : sessionDue { maxSessionExpiry := 100 } { stopped := true, ver := 4 } (NOW + 101) = true := by decide
+
+/-! ### no orphan subscriptions: the topic index and the sessions agree (`Mochi/Lemmas/BrokerIndexSync.lean`)
+
+`IndexSync s`: every non-inline entry `(cid, filter)` of the topic index (plain or shared) belongs to a client
+registered under `cid` whose object holds a subscription for `filter`. -/
+
+/-- the unrestricted statement: no orphan index entry after ANY history with fresh connection numbers.
+    False under some schedules: `C15_no_orphan_subscriptions_all_histories_false`. -/
+def C15_no_orphan_subscriptions_all_histories : Prop :=
+  ∀ (caps : Caps) (ops : List Op), OpsFresh (init caps) ops → IndexSync (run (init caps) ops)
+
+/-- … for every history that respects the discipline of the schedule ops (`SchedOK`: no op on a connection whose
+    handler is parked; no `clients` tick that expires a session whose handler is parked before its clean-up) -/
+theorem C15_no_orphan_subscriptions_all_histories_partial (caps : Caps) (ops : List Op)
+    (hf : OpsFresh (init caps) ops) (hok : OpsSchedOK (init caps) ops) : IndexSync (run (init caps) ops) :=
+  IndexSync_run_partial caps ops hf hok
+
+/-- … in particular for EVERY history without schedule ops (connect, recv, recvCut, drop, ticks, inline API) -/
+theorem C15_no_orphan_subscriptions_seq (caps : Caps) (ops : List Op) (hseq : SeqOps ops)
+    (hf : OpsFresh (init caps) ops) : IndexSync (run (init caps) ops) :=
+  IndexSync_run_seq caps ops hseq hf
+
+/-- the schedule that orphans an entry: client `x` (MQTT 5, Session Expiry 0) loses its connection and its handler
+    is parked before the session clean-up (`attach.beforeCleanup`); `clearExpiredClients` removes the session; `x`
+    connects again and subscribes to `a`; the parked handler runs on — its `Clients.Delete(cl.ID)` removes the NEW
+    session from the Clients map, the subscription stays in the index -/
+def orphanHistory : List Op :=
+  [.connect 1 { ver := 5, id := [120], sei := some 0 },
+   .dropHold 1,
+   .tick "clients" (NOW + 1),
+   .connect 2 { ver := 5, id := [120], sei := some 100 },
+   .recv 2 (.subscribe 1 0 [{ filter := [97] }]),
+   .release 1]
+
+theorem C15_orphan_fresh : OpsFresh (init {}) orphanHistory := by decide
+
+/-- the entry `(x, a)` is in the index, `x` is not in the Clients map -/
+theorem C15_orphan_counterexample : ¬ IndexSync (run (init {}) orphanHistory) := by decide
+
+theorem C15_no_orphan_subscriptions_all_histories_false : ¬ C15_no_orphan_subscriptions_all_histories :=
+  fun h => C15_orphan_counterexample (h {} orphanHistory C15_orphan_fresh)
+
+/-- the op that breaks the discipline is the `clients` tick (third op) -/
+example : OpsSchedOK (init {}) (orphanHistory.take 2) := by decide
+example : ¬ OpsSchedOK (init {}) (orphanHistory.take 3) := by decide
+example : indexEntries (run (init {}) orphanHistory).topics = [([120], [97])] := by decide
+example : (run (init {}) orphanHistory).clients = [(inlineID, 0)] := by decide
+
+/-- what the orphan entry does: the connection is dropped, `x` connects a third time with Clean Start (connection
+    3, never subscribes), `y` connects (connection 4) and publishes to `a`: connection 3 is written the PUBLISH -/
+example :
+    let s := run (init {}) (orphanHistory ++ [.drop 2, .connect 3 { ver := 5, id := [120], clean := true },
+      .connect 4 { ver := 5, id := [121] }])
+    (step s (.recv 4 (.publish 0 false false 0 [97] [112] 0 none))).2.any
+      (fun o => match o with | .wrote 3 (.publish ..) => true | _ => false) = true := by decide
+
+/-- other ways to orphan an entry are model artefacts excluded by `SchedOK` (a parked handler does not read, so the
+    harness never applies an op to a parked connection): a `drop` on a connection parked in the authentication hook -/
+example : ¬ IndexSync (run (init {})
+    [.connect 1 { ver := 5, id := [120], sei := some 100 },
+     .recv 1 (.subscribe 1 0 [{ filter := [97] }]),
+     .connectHold 2 { ver := 5, id := [120], sei := some 0 } 1,
+     .drop 2]) := by decide
+/-- … or a SUBSCRIBE read on it -/
+example : ¬ IndexSync (run (init {})
+    [.connectHold 2 { ver := 5, id := [120], sei := some 0 } 1,
+     .recv 2 (.subscribe 1 0 [{ filter := [97] }])]) := by decide
+
+/-- once a session is no longer in the Clients map, none of its subscriptions is in the index: after
+    `clearExpiredClients` (`tick "clients"`) at the end of any history (respecting `OpFresh`, `SchedOK`) every client id
+    that is no longer registered has no entry -/
+theorem C15_expired_session_leaves_no_subscription (caps : Caps) (ops : List Op) (t : Int)
+    (hf : OpsFresh (init caps) (ops ++ [.tick "clients" t])) (hok : OpsSchedOK (init caps) (ops ++ [.tick "clients" t]))
+    (cid : Str) (_hwas : ∃ i, (cid, i) ∈ (run (init caps) ops).clients)
+    (hgone : ∀ i, (cid, i) ∉ (run (init caps) (ops ++ [.tick "clients" t])).clients) (f : Str) :
+    (cid, f) ∉ indexEntries (run (init caps) (ops ++ [.tick "clients" t])).topics :=
+  (IndexSync_run_partial caps _ hf hok).no_entry_of_unregistered cid hgone f
+
+/-- the same for a session that ended in any other way (expiry 0 at disconnect, MQTT 3 clean session): in every
+    reachable state an unregistered client id has no entry -/
+theorem C15_ended_session_leaves_no_subscription (caps : Caps) (ops : List Op)
+    (hf : OpsFresh (init caps) ops) (hok : OpsSchedOK (init caps) ops)
+    (cid : Str) (hgone : ∀ i, (cid, i) ∉ (run (init caps) ops).clients) (f : Str) :
+    (cid, f) ∉ indexEntries (run (init caps) ops).topics :=
+  (IndexSync_run_partial caps _ hf hok).no_entry_of_unregistered cid hgone f
+
+/-! non-vacuity: two clients `A` (Session Expiry 10) and `B`, plain and `$share` subscriptions, a takeover of `B` with
+    Clean Start, `A`'s connection is dropped and its session expires at the tick -/
+def demoA : Str := [65]
+def demoB : Str := [66]
+def demoShare : Str := [36, 115, 104, 97, 114, 101, 47, 103, 47, 97]   -- $share/g/a
+
+def demoTakeover : List Op :=
+  [.connect 1 { ver := 5, id := demoA, sei := some 10 },
+   .recv 1 (.subscribe 1 0 [{ filter := [97] }, { filter := demoShare }]),
+   .connect 2 { ver := 5, id := demoB, sei := some 100 },
+   .recv 2 (.subscribe 1 0 [{ filter := [98] }]),
+   .connect 3 { ver := 5, id := demoB, clean := true, sei := some 100 }]
+
+def demoExpiry : List Op :=
+  demoTakeover ++ [.recv 3 (.subscribe 1 0 [{ filter := [98] }]), .drop 1, .tick "clients" (NOW + 11)]
+
+example : SeqOps demoExpiry := by decide
+example : OpsFresh (init {}) demoExpiry := by decide
+example : OpsSchedOK (init {}) demoExpiry := by decide
+/-- before the takeover `B`'s entry is there -/
+example : indexEntries (run (init {}) (demoTakeover.take 4)).topics =
+    [(demoA, [97]), (demoA, demoShare), (demoB, [98])] := by decide
+/-- before the tick `A` is registered and its two entries (plain and shared) are in the index, with `B`'s new one -/
+example : (demoA, 1) ∈ (run (init {}) (demoExpiry.take 7)).clients := by decide
+example : indexEntries (run (init {}) (demoExpiry.take 7)).topics =
+    [(demoA, [97]), (demoA, demoShare), (demoB, [98])] := by decide
+/-- after the tick `A` is gone from the Clients map and from the index; the index is not empty -/
+example : ∀ i, (demoA, i) ∉ (run (init {}) demoExpiry).clients := by
+  intro i h
+  have : (run (init {}) demoExpiry).clients = [(inlineID, 0), (demoB, 3)] := by decide
+  rw [this] at h
+  simp [inlineID, demoA, demoB] at h
+example : indexEntries (run (init {}) demoExpiry).topics = [(demoB, [98])] := by decide
+
+/-! ### the converse: a registered session's plain subscriptions are all in the index -/
+
+/-- (b) for plain filters, for every history respecting `OpFresh` and `SchedOK`: every plain filter a registered
+    session holds a subscription for has its entry in the topic index (so the session does receive what it subscribed
+    to — C03).  For `$share` filters the statement is false already sequentially:
+    `IndexSyncConv_seq_false` (`Mochi/Lemmas/BrokerIndexSync.lean`). -/
+theorem C15_plain_subscriptions_indexed_partial (caps : Caps) (ops : List Op)
+    (hf : OpsFresh (init caps) ops) (hok : OpsSchedOK (init caps) ops) : IndexSyncPlain (run (init caps) ops) :=
+  IndexSyncPlain_run_partial caps ops hf hok
+
+theorem C15_plain_subscriptions_indexed_seq (caps : Caps) (ops : List Op) (hseq : SeqOps ops)
+    (hf : OpsFresh (init caps) ops) : IndexSyncPlain (run (init caps) ops) :=
+  IndexSyncPlain_run_seq caps ops hseq hf
+
+example : IndexSyncPlain (run (init {}) demoExpiry) := by decide
+example : IndexSyncConv (run (init {}) demoExpiry) := by decide
+
+/-! the discipline `SchedOK` admits the schedules of the harness: a handler parked before its clean-up while the same
+    client id reconnects (takeover of the parked session) and is released afterwards; a CONNECT parked in the
+    authentication hook and one parked after `Clients.Add`, each released later; a handler parked right after its read
+    loop; a `clients` tick while handlers are parked that expires none of them -/
+def demoSchedule : List Op :=
+  [.connect 1 { ver := 5, id := demoA, sei := some 0 },
+   .recv 1 (.subscribe 1 0 [{ filter := [97] }, { filter := demoShare }]),
+   .dropHold 1,
+   .connect 2 { ver := 5, id := demoA, clean := false, sei := some 50 },
+   .release 1,
+   .connectHold 3 { ver := 5, id := demoB, sei := some 100 } 1,
+   .tick "clients" (NOW + 5),
+   .release 3,
+   .recv 3 (.subscribe 1 0 [{ filter := [98] }]),
+   .connectHold 4 { ver := 5, id := demoB, clean := false, sei := some 100 } 2,
+   .dropHoldEarly 2,
+   .release 4,
+   .release 2,
+   .tick "clients" (NOW + 100)]
+
+example : ¬ SeqOps demoSchedule := by decide
+example : OpsFresh (init {}) demoSchedule := by decide
+example : OpsSchedOK (init {}) demoSchedule := by decide
+/-- `A`'s session was resumed by connection 2 while the old handler was parked, lost its connection and expired at the
+    last tick; `B`'s session was inherited by connection 4 -/
+example : indexEntries (run (init {}) (demoSchedule.take 13)).topics =
+    [(demoA, [97]), (demoA, demoShare), (demoB, [98])] := by decide
+example : indexEntries (run (init {}) demoSchedule).topics = [(demoB, [98])] := by decide
+example : (run (init {}) demoSchedule).clients = [(inlineID, 0), (demoB, 4)] := by decide
 
 end Mochi.Broker
